@@ -7,7 +7,7 @@ HERE = Path(__file__).resolve().parent
 BASELINE = "cd /repo && /venv/bin/python -m pytest -ra -q -p no:cacheprovider --timeout=900 --continue-on-collection-errors"
 
 CHECKS = {
-    "C01": ("reference-model monitor (sumset square-and-multiply oracle) on BitLengthSet queries + operand-immutability re-query",
+    "C01": ("reference-model monitor (sumset square-and-multiply oracle) on BitLengthSet queries + operand-immutability re-query + logical-step meter (sys.monitoring) with a polynomial budget on deep narrow operator chains",
             "R-bls reference (pv/ref/bls.py), cost predictor that resamples trees the unchanged implementation cannot answer"),
     "C02": ("reference-model monitor (R-layout) on every type object of generated universes, two build routes compared",
             "R-layout restates the Specification's layout rules; R-bls evaluates the expected sets; cost predictor bounds divisors"),
@@ -21,7 +21,7 @@ CHECKS = {
             "R-codec / R-layout references; D is a structure"),
     "C16": ("M-expand probe on every Operator.expand + M-enum counting proxy for _symbolic.itertools with per-divisor invariants + sys.monitoring step meter, compared across capacity magnitudes congruent mod 64",
             "cost measured in logical units only; templates too expensive for the unchanged implementation at the smallest magnitude are resampled"),
-    "C18": ("contract monitor over independently built object pairs (reflexive/symmetric/hash/eq-implies-same), introspected list-accessor mutation probe, pickle round-trip fingerprint",
+    "C18": ("contract monitor over independently built object pairs (reflexive/symmetric/hash/eq-implies-same) and against foreign operands, introspected list-accessor mutation probe, pickle round-trip fingerprint in-process and in a sub-process with another hash seed (twins built there), composites with up to 300 fields",
             "R-bls decides exact set equality when small; approximate BitLengthSet equality may err towards equality as the statement allows"),
     "C03": ("M-conserve event log inside the real builder (emitted = committed at finalize) + expected-signature oracle from the description + metamorphic comparison across formatting policies + canonical re-rendering round trip",
             "doc comments asserted only for unambiguous placements; statements are never indented"),
@@ -29,19 +29,19 @@ CHECKS = {
             "R-expr is the trusted evaluator; results the Specification does not pin are not compared; bounded exponents"),
     "C12": ("icontract postcondition (M-const) on the real Constant.__init__ + complete boundary grid with accept/reject and exact stored-value oracle",
             "acceptance rules as restated in the property; exhaustive=true refers to the finite boundary grid only"),
-    "C13": ("exception-taxonomy classifier (M-tax) at the API boundary over token/character mutations, noise, 230 targeted corner statements and hostile file names",
+    "C13": ("exception-taxonomy classifier (M-tax) at the API boundary over token/character mutations, noise, raw non-UTF-8 bytes, ~250 targeted corner statements, deep nesting, dependency chains (fan-out 1-3, namespace depth 0-60, up to 1100 definitions) under a logical-step budget, hostile directory entries (names, symbolic links) and degenerate read_files targets",
             "mutants that could only exhaust resources are dropped and counted; UTF-8 text only"),
-    "C17": ("fault/@print injection at known lines and depths; M-tax on Error.path/line and M-print (evaluations recorded at the real directive handler vs deliveries to the user handler)",
+    "C17": ("fault/@print injection at known lines and depths (incl. references misspelled in letter case only); M-tax on Error.path/line and M-print (evaluations recorded at the real directive handler vs deliveries to the user handler)",
             "finalize-time errors carry no line by design: only their path is checked"),
-    "C09": ("unique-id constants make every resolution observable; R-resolve reference on generated dependency graphs, read_namespace vs read_files in random target orders, 10 injected error shapes",
+    "C09": ("unique-id constants make every resolution observable; R-resolve reference on generated dependency graphs, read_namespace vs read_files in random target orders, 15 injected error shapes",
             "R-resolve restates the resolution rule of the property"),
-    "C10": ("R-order reference + determinism under injected perturbation: sub-processes with different PYTHONHASHSEED, seeded shuffling wrapper on Path.rglob, equivalent argument spellings/orders/duplicates/symlinks; signatures compared byte for byte",
+    "C10": ("R-order reference + determinism under injected perturbation: sub-processes with different PYTHONHASHSEED, seeded shuffling wrapper on Path.rglob, equivalent argument spellings/orders/duplicates/symlinks/container forms (incl. one-shot iterables); signatures compared byte for byte; duplicate-file and symlinked-definition-file experiments (one composite per directory entry)",
             "only accept/reject and successful results are compared (which of several errors is reported may depend on order)"),
     "C11": ("pairwise rule predicate (exactly the statement's) as oracle over generated definition families in target and referenced-lookup placement; two-definition sub-space enumerated in the thorough tier",
             "unregulated port-IDs (regulated ranges belong to C05)"),
-    "C15": ("R-path oracle (identity parsed from the path by the harness) over a matrix of 14 target/root designations with cwd changes; agreement of all succeeding designations; malformed names must be rejected",
+    "C15": ("R-path oracle (identity parsed from the path by the harness) over a matrix of ~27 target/root designations with cwd changes (documented forms must succeed, off-form ones may only fail with InvalidDefinitionError); agreement of all succeeding designations; malformed names must be rejected; symlinked definition files named by their own entry",
             "exotic numerals accepted by int() are reported, not judged; undocumented mixed designations may fail"),
-    "C19": ("differential monitor: baseline read vs re-read after replacing/adding definitions outside the R-resolve closure; outcome signature and @print log compared; audit hook records opened files",
+    "C19": ("differential monitor: baseline read vs re-read after replacing/adding definitions outside the R-resolve closure (incl. an unreferenced namesake of a target); outcome signature and @print log compared; audit hook records opened files",
             "file names stay valid"),
     "C05": ("R-rules oracle: valid-by-construction skeleton + rule mutators with known legal/illegal side at random admissible positions; accept/reject compared at the API boundary; M-conserve and M-const on",
             "rule list as restated in the property; pydsdl-specific extras avoided by the skeleton"),
